@@ -34,4 +34,37 @@ int poll(struct pollfd *fds, nfds_t nfds, int timeout)
         fds[0].revents = nondet_short();
     return r;
 }
+
+#ifdef XC_FOREACH_STUB
+/* TRUSTED(xcm_attr_map.c) xcm_attr_map_foreach: calls cb once per entry, in map order, with the entry's (name, type, value,
+ * length) and the caller's `user`.  The map is abstract: xv_map_n entries (ANY number), each entry arbitrary; the entry
+ * whose write will be write number xv_j (ghost index) is recorded in xv_map_* when the iteration gets there.  The loop
+ * carries a loop contract (this file is verification text, so it is written in place): the invariant is what set_attrs needs
+ * to know about the callbacks made so far; it is CHECKED (base and step) like any other loop invariant, not assumed. */
+const char *nondet_cstr(void);
+const void *nondet_cvoidp(void);
+#include "contracts/begin.h"   /* no generated pointer checks inside the text of the invariants (as in contract clauses) */
+void xcm_attr_map_foreach(const struct xcm_attr_map *attr_map, xcm_attr_map_foreach_cb cb, void *user)
+{
+    struct set_attr_state *st = user;
+    long before = xv_set_calls;         /* writes made before the iteration (the defaults) */
+    long i;
+    for (i = 0; i < xv_map_n; i++)
+    __CPROVER_assigns(i, st->rc, xv_map_name, xv_map_type, xv_map_value, xv_map_len,
+                      xv_at_name, xv_at_type, xv_at_value, xv_at_len, xv_at_sock,
+                      xv_errno, xv_set_calls, xv_set_failed, xv_set_name, xv_set_type, xv_set_value, xv_set_len, xv_set_sock, xv_set_rv, xv_set_first_name,
+                      xv_conn_dead, xv_updated, xv_upd_cond, xv_upd_sock, st->s->is_blocking, st->s->condition; xv_attrs_req_block: xv_blocked)
+    __CPROVER_loop_invariant(0 <= i && i <= xv_map_n)
+    __CPROVER_loop_invariant(__CPROVER_loop_entry(xv_conn_dead) ==> xv_conn_dead)
+    __CPROVER_loop_invariant(st->s == __CPROVER_loop_entry(st->s))
+    __CPROVER_loop_invariant(st->rc == 0 ? (!xv_set_failed && xv_set_calls == before + i) : (st->rc == -1 && xv_set_failed && xv_errno > 0))
+    __CPROVER_loop_invariant((st->rc == 0 && xv_j >= before && xv_j < before + i) ? (xv_at_name == xv_map_name && xv_at_type == xv_map_type && xv_at_value == xv_map_value && xv_at_len == xv_map_len && xv_at_sock == st->s) : (xv_j < before ==> (xv_at_name == __CPROVER_loop_entry(xv_at_name) && xv_at_type == __CPROVER_loop_entry(xv_at_type) && xv_at_value == __CPROVER_loop_entry(xv_at_value) && xv_at_len == __CPROVER_loop_entry(xv_at_len) && xv_at_sock == __CPROVER_loop_entry(xv_at_sock))))
+    {
+        const char *name = nondet_cstr(); int type = nondet_int(); const void *value = nondet_cvoidp(); size_t len = nondet_size_t();
+        if (before + i == xv_j) { xv_map_name = name; xv_map_type = type; xv_map_value = value; xv_map_len = len; }
+        cb(name, (enum xcm_attr_type)type, value, len, user);
+    }
+}
+#include "contracts/end.h"
+#endif
 #endif
